@@ -294,6 +294,12 @@ def main(argv=None):
         'wall_s': round(wall, 2),
         'violations': new_violations,
     }
+    # ---- thorough tier only, clean tree only: run the check against the seeded changes kept for this property
+    if tier == 'thorough' and exit_code == 0 and args.n is None and not os.environ.get('VERIF_REPO') and os.environ.get('VERIF_SENSITIVITY', '1') != '0':
+        from sim import sensitivity
+
+        ev['coverage']['sensitivity'] = sensitivity.run(prop, seed)
+        ev['wall_s'] = round(time.time() - t0, 2)
     evpath = args.evidence or os.path.join(sim.VERIF_DIR, 'evidence', f'{prop}.json')
     os.makedirs(os.path.dirname(evpath), exist_ok=True)
     with open(evpath, 'w') as f:
